@@ -1,2 +1,4 @@
 from harness.corecheck import make
-MODULE = make("C01", ["CircusProofs/Props/C01.lean"], ["CircusProofs/Lemmas/Core.lean"])
+MODULE = make("C01", ["CircusProofs/Props/C01.lean"],
+              ["CircusProofs/Core/Pres.lean", "CircusProofs/Core/Generic.lean", "CircusProofs/Core/SlotFree.lean",
+               "CircusProofs/Core/WsAll.lean", "CircusProofs/Core/Calm.lean", "CircusProofs/Core/Init.lean"])
